@@ -1,10 +1,17 @@
 #!/bin/sh
 # usage: mutest.sh <ID> <patch.diff> [tier]   — runs ./check <ID> against a scratch worktree of /repo's HEAD with the patch applied,
 # using a private copy of /verif (so that /repo, /verif/lean/Logrange/Generated and evidence/ are not disturbed). Prints the tail of
-# the check's output. Scratch data is removed afterwards.
+# the check's output. Scratch data is removed afterwards. MUTEST_HEAD=1: use /verif's committed HEAD instead of its working tree.
 ID="$1"; PATCH="$(readlink -f "$2")"; TIER="${3:-quick}"
 W="/tmp/mt-$ID-$$"
-mkdir -p "$W" && rsync -a --exclude .cache --exclude .git --exclude replays /verif/ "$W/verif/"; [ -x "$W/verif/check" ] || exit 2
+mkdir -p "$W/verif"
+if [ -n "$MUTEST_HEAD" ]; then
+  # committed state of /verif only (builder agents may be mid-edit in the working tree) + the build caches
+  git -C /verif archive HEAD | tar -x -C "$W/verif" && rsync -a /verif/lean/.lake "$W/verif/lean/" && mkdir -p "$W/verif/.cache" && ln -s /verif/.cache/gocache "$W/verif/.cache/gocache"
+else
+  rsync -a --exclude .cache --exclude .git --exclude replays /verif/ "$W/verif/"
+fi
+[ -x "$W/verif/check" ] || exit 2
 git -C /repo worktree add -q "$W/repo" HEAD || exit 2
 # uncommitted verif-tagged export files of /repo's working tree are part of the harness' interface: copy them
 (cd /repo && git ls-files --others --exclude-standard | grep -E '(export[a-z0-9_]*_verif|_verif)\.go$' | while read f; do mkdir -p "$W/repo/$(dirname "$f")"; cp "$f" "$W/repo/$f"; done)
